@@ -281,23 +281,34 @@ def rule_guard_ucycle(P):
         if isinstance(n, ast.Assign) and isinstance(n.targets[0], ast.Name) and norm(n.value) == f"{gname}.buckets":
             bk = n.targets[0].id
     if bk is None:
-        # positive evidence of the classic slip: "head and body both lie on *some* cycle" (two membership tests in one set that
-        # accumulates several components) instead of "in the same component"
+        # positive evidence of the classic slip: the unary rules to skip are chosen by a property of each end point taken alone
+        # ("head is cyclic and body is cyclic": two membership tests in one set) instead of a relation between them ("same component")
+        def conj(e):
+            e = W.canon_ast(f.node, e, e)
+            if isinstance(e, ast.BoolOp) and isinstance(e.op, ast.And):
+                out = []
+                for v in e.values:
+                    out.extend(conj(v))
+                return out
+            return [e]
+
         for n in walk_live(f.node):
-            if isinstance(n, ast.BoolOp) and isinstance(n.op, ast.And):
-                ins = [v for v in n.values if isinstance(v, ast.Compare) and len(v.ops) == 1 and isinstance(v.ops[0], ast.In)
+            if isinstance(n, ast.If) and isinstance(n.test, ast.BoolOp) and isinstance(n.test.op, ast.And):
+                parts = conj(n.test)
+                ins = [v for v in parts if isinstance(v, ast.Compare) and len(v.ops) == 1 and isinstance(v.ops[0], (ast.In, ast.NotIn))
                        and isinstance(v.comparators[0], ast.Name)]
-                sets = {v.comparators[0].id for v in ins}
-                sides = {norm(v.left).rsplit(".", 1)[-1].split("[")[0] for v in ins}
-                if len(ins) == 2 and len(sets) == 1 and sides == {"head", "body"}:
-                    sname = next(iter(sets))
-                    grown_in_loop = any(isinstance(c, ast.Call) and isinstance(c.func, ast.Attribute) and c.func.attr in ("add", "update")
-                                        and W.is_name(c.func.value, sname) and any(isinstance(a, ast.For) and "Blocks" in norm(a.iter) for a in ancestors(c))
-                                        for c in walk_live(f.node))
-                    if grown_in_loop:
-                        r.add(f, n, False, f"`{norm(n)}` skips a unary rule when head and body each lie on *some* cycle: `{sname}` collects the nodes "
-                              f"of every cyclic component, so a unary rule linking two different cyclic components is dropped although no block "
-                              f"closure covers it (weight is lost)", construct="unarycycleremove: which unary rules the closure replaces")
+                by_set = {}
+                for v in ins:
+                    by_set.setdefault((v.comparators[0].id, type(v.ops[0]).__name__), []).append(norm(v.left))
+                for (sname, _op), lefts in by_set.items():
+                    heads = [x for x in lefts if x.endswith(".head")]
+                    bodies = [x for x in lefts if ".body[0]" in x]
+                    joint = any(isinstance(v, ast.Compare) and ".head" in norm(v) and ".body[0]" in norm(v) for v in parts)
+                    if heads and bodies and not joint:
+                        r.add(f, n, False, f"`{norm(n.test)}` skips a unary rule when its head and its body each pass a test against `{sname}` on their own: "
+                              f"that says both lie on *some* unary cycle, not on the *same* one; a unary rule linking two different cyclic components "
+                              f"is dropped although no block closure covers it (weight is lost)",
+                              construct="unarycycleremove: which unary rules the closure replaces")
                         return r
         raise AnalysisError("cfg.py::CFG.unarycycleremove: SCC bucket map not found")
     for c in acyc:
